@@ -875,6 +875,28 @@ class spawn(SpawnBase):
                     break
                 log(data, 'send')
                 self.__interact_writen(self.child_fd, data)
+        else:
+            # The child has exited. What it wrote before it went may still
+            # be waiting in the pty: hand that on before returning.
+            while True:
+                if self.use_poll:
+                    r = poll_ignore_interrupts([self.child_fd], 0)
+                else:
+                    r = select_ignore_interrupts([self.child_fd], [], [], 0)[0]
+                if self.child_fd not in r:
+                    break
+                try:
+                    data = self.__interact_read(self.child_fd)
+                except OSError as err:
+                    if err.args[0] == errno.EIO:
+                        break
+                    raise
+                if data == b'':
+                    break
+                if output_filter:
+                    data = output_filter(data)
+                log(data, 'read')
+                os.write(self.STDOUT_FILENO, data)
 
 
 def spawnu(*args, **kwargs):
